@@ -284,7 +284,7 @@ fn op_strategy() -> BoxedStrategy<OpDesc> {
     let rate = || prop_oneof![Just(0.0f64), Just(1.0f64), 0.0f64..=1.0];
     let bits = || prop::collection::vec(any::<bool>(), 0..24);
     prop_oneof![
-        4 => (crate::props::c06::results_strategy(8)).prop_flat_map(|results| {
+        4 => prop_oneof![3 => crate::props::c06::results_strategy(8), 2 => crate::props::c06::results_strategy(150)].prop_flat_map(|results| {
             let n = results.len();
             let m = results.iter().map(Vec::len).min().unwrap_or(0);
             (Just(results), spec_strategy(n, m, 2)).prop_map(|(results, spec)| OpDesc::Select { spec, results })
